@@ -59,6 +59,12 @@ def gen_plan(seed, tier, index):
                 ln['range'] = 'logprob'
             if r.random() < 0.12:
                 ln['chars_variant'] = r.choice([True, 'samejoin'])
+    if r.random() < 0.012:
+        # a realistically large line: hundreds of symbols, hundreds of frames, weakly pruned (> 65535 stored entries)
+        cfg.update({'nchars': 300, 'charset': 'big', 'space': False, 'lm': False, 'carry': False, 'type': 'GREEDY'})
+        pages = [{'id': 'pg0', 'regions': 1, 'lines': [{'frames': 260, 'seed': r.randrange(1 << 30), 'amb': 0.3, 'coords': 'std', 'range': 'flat'},
+                                                      {'frames': 3, 'seed': r.randrange(1 << 30), 'amb': 0.3, 'coords': 'std'}]}]
+        npages = 1
     ops = []
     saved = []
     fault_free = r.random() < 0.4
@@ -81,7 +87,8 @@ def gen_plan(seed, tier, index):
         else:
             ops.append({'op': 'load', 'page': r.choice(saved),
                         'into': r.choice(['xml', 'xml', 'xml', 'xml+extra', 'other_page', 'fresh_copy', 'redensified']),
-                        'other': r.randrange(npages), 'decode': r.random() < 0.85})
+                        'other': r.randrange(npages), 'decode': r.random() < 0.85 and cfg.get('charset') != 'big',
+                        'scribble': r.random() < 0.3})
     return {'world': 'log', 'cfg': cfg, 'pages': pages, 'ops': ops, 'fault_free': fault_free,
             'clock': {'inc': [0.001], 'jumps': {}}}
 
@@ -363,6 +370,17 @@ def execute(plan):
                     elif tr != ref_tr:
                         _v(res, 'consumer', 'redecode-differs', 're-decoding from the saved artefacts gave %s, from the original layout %s' % (tr, ref_tr), k)
                         break
+                if op.get('scribble'):
+                    # a downstream consumer post-processes the loaded layout in place; later loads of the same
+                    # artefact must not see any of it
+                    for ln in target.lines_iterator():
+                        if ln.logits is not None and ln.logits.nnz:
+                            ln.logits.data *= 0.5
+                        if isinstance(ln.characters, list):
+                            ln.characters.append('!')
+                        if isinstance(ln.logit_coords, list) and ln.logit_coords:
+                            ln.logit_coords[0] = 99
+                    res.probe('loaded_layout_modified_in_place')
                 res.states.append(kernel.sha([spec, into, sorted((i, m == 'lost') for i, m in model[pg].items())]))
     finally:
         shutil.rmtree(d, ignore_errors=True)
